@@ -248,6 +248,10 @@ class Normaliser(object):
 
     def suite(self, body, parent, protect=None):
         out = self.items(body, protect)
+        # docstring guard: when the statements in front of a string statement were removed, the implementation keeps a `0` there so that the
+        # string does not become the docstring (nameeng.docstring_changes checks the docstrings themselves on the pristine trees)
+        if isinstance(parent, (ast.Module, ast.ClassDef) + FUNC) and self.any_remover() and len(out) >= 2 and self.lone_zero(out[:1]) and is_docstring_stmt(out[1]):
+            out = out[1:]
         # placeholder normal form: a lone `0` stands for "this suite is empty" when a statement-removing option is on
         if not isinstance(parent, ast.Module):
             if self.lone_zero(out) and self.any_remover():
